@@ -6,8 +6,9 @@ from .. import cases as C
 from .. import sched
 from ..abstract import EMB
 from ..core import CheckRun
-from ..domains import Rng, compositions, pairs_upto
-from ..drivers import api, strategy
+from ..domains import Rng, all_bool_masks, compositions, pairs_upto, seqs
+from ..env import NONE
+from ..drivers import api, chunked, strategy
 from ..env import NULL
 from . import C01, C04
 
@@ -86,6 +87,88 @@ def product_cases(rng, tier):
     return out
 
 
+CHK = """SPECIFICATION {spec}
+CHECK_DEADLOCK FALSE
+CONSTANTS
+ LabelIds = {{1, 2}}
+ Vals = {{1, 2}}
+ MaxRows = {rows}
+ MaxChunks = {chunks}
+ KernelSet = {kernels}
+ MaskKinds = {masks}
+ Reps = {reps}
+ SortChoices = {sorts}
+ DistinctVals = {distinct}
+ AnyOrder = {anyorder}
+ NegStartUnclamped = {d1}
+ FirstChunkGE = {d2}
+ PointerNoOffset = {d3}
+ MergeNoCount = {d4}
+ PosAsSet = {d5}
+{tail}"""
+CHK_INV = "INVARIANT MergedIsDef\nINVARIANT PointerAligned\nINVARIANT NoOutOfBounds\nINVARIANT PartialIsPieceDef\nINVARIANT PiecesAreSlice\nINVARIANT LabelsAreKeys\n"
+ALLK7 = '{"size", "count", "sum", "sumsq", "min", "max", "first", "last"}'
+
+
+def chk_cfg(rows=2, chunks=3, kernels='{"sum", "first", "last", "size"}', masks='{"none", "slice"}', reps='{"pointers", "global"}', sorts="{TRUE, FALSE}",
+            distinct="TRUE", anyorder="FALSE", dev=None, spec="Spec", tail=CHK_INV):
+    d = {f"d{i}": "FALSE" for i in range(1, 6)}
+    if dev:
+        d[dev] = "TRUE"
+    return CHK.format(spec=spec, rows=rows, chunks=chunks, kernels=kernels, masks=masks, reps=reps, sorts=sorts, distinct=distinct, anyorder=anyorder, tail=tail, **d)
+
+
+def chk_trace_cfg(internal=True):
+    return chk_cfg(spec="TraceSpec", tail=f" CheckInternal = {'TRUE' if internal else 'FALSE'}\n")
+
+
+def chunked_cases(rng, tier):
+    """reductions over chunked keys: every key sequence over {Null, 1, 2} up to 3 rows x every layout of the code array into <= 3 chunks
+    (empty chunks included) and the chunk-wise route of contiguous keys (threshold 2) x every boolean mask and every slice with bounds in
+    -(n+2)..n+2 (and None) x with / without an earlier .groups call (re-coded representation)."""
+    out = []
+    ops = ["size", "count", "sum", "min", "max", "first", "last"]
+    nmax = 3
+    for n in range(1, nmax + 1):
+        bounds = [NONE] + list(range(-(n + 2), n + 3))
+        masks = [{"k": "none"}] + all_bool_masks(n) + [{"k": "slice", "s": [a, b, NONE]} for a in bounds for b in bounds]
+        layouts = [list(c) for k in (1, 2, 3) for c in compositions(n, k, allow_zero=True)] + [None]
+        for keys in seqs([NULL, 1, 2], n):
+            for lay in layouts:
+                for m in masks:
+                    if tier == "quick" and n == 3 and m["k"] == "slice" and rng.random() < 0.5:
+                        continue
+                    for op in (ops if tier != "quick" else [rng.pick(ops)]):
+                        emb = rng.pick(["f64", "f64", "i64", "u8"]) if op not in ("size",) else "f64"
+                        vals = [rng.pick([NULL, 1, 2, 3]) if emb == "f64" else rng.pick([1, 2, 3]) for _ in range(n)]
+                        kenc = "f64" if (NULL in keys or rng.random() < 0.5) else "i64"
+                        if lay is not None and NULL in keys:
+                            continue       # (an arrow float NaN is a value, not a null: C02 / C12)
+                        out.append(dict(op=op, keys=list(keys), vals=vals, emb=emb, kenc=kenc, klens=lay, T=(2 if lay is None else None),
+                                        mask=m, sort=rng.pick([0, 1]), pre=rng.pick([[], [], ["groups"]])))
+    for _ in range(1500 if tier == "quick" else 20000):
+        n = rng.randrange(4, 10)
+        keys = [rng.pick([1, 2, 3]) for _ in range(n)]
+        k = rng.randrange(1, 5)
+        cuts = sorted(rng.randrange(0, n + 1) for _ in range(k - 1))
+        lay = [b - a for a, b in zip([0] + cuts, cuts + [n])]
+        mk = rng.random()
+        if mk < 0.2:
+            m = {"k": "none"}
+        elif mk < 0.5:
+            m = {"k": "bool", "b": [rng.randrange(2) for _ in range(n)]}
+        elif mk < 0.9:
+            m = {"k": "slice", "s": [rng.pick([NONE] + list(range(-n - 2, n + 3))), rng.pick([NONE] + list(range(-n - 2, n + 3))), rng.pick([NONE, 1])]}
+        else:
+            m = {"k": "pos", "p": sorted(rng.sample(range(n), rng.randrange(0, n)))}
+        op = rng.pick(ops)
+        emb = rng.pick(["f64", "i64", "u8", "i32"]) if op != "size" else "f64"
+        vals = [rng.pick([NULL, 1, 2, 3]) if emb == "f64" else rng.pick([1, 2, 3]) for _ in range(n)]
+        out.append(dict(op=op, keys=keys, vals=vals, emb=emb, kenc=rng.pick(["f64", "i64"]), klens=lay, T=None, mask=m, sort=rng.pick([0, 1]),
+                        pre=rng.pick([[], ["groups"], ["size"]])))
+    return out
+
+
 def run(tier):
     ck = CheckRun("C03", tier, rule=(
         "one logical call (input up to length 3 (4) exhaustively sampled, random/sorted inputs up to 12 rows where a group is "
@@ -100,8 +183,33 @@ def run(tier):
     ck.mc_bg("GBReduce", C04.MC.format(ng=2, vals="{1, 2}", rows=4, blocks=4, kernels=C04.ALLK, muc="TRUE", isf="TRUE"), "blocks_n4", workers=4)
     ck.mc_bg("GBReduce", C04.MC.format(ng=2, vals="{1, 2}", rows=3, blocks=2, kernels='{"min"}', muc="FALSE", isf="TRUE"), "neg_merge_without_counts", expect="BlocksAreSingle", workers=1)
     ck.mc_bg("GBCore", C01.MC.format(labels="{1, 2}", nkeys=1, vals="{1, 2}", rows=3, kernels=C01.ALLK, obv="FALSE"), "core_blowup_law", workers=4)
+    # the chunked-key pipeline (GBChunked): mask resolution into pieces, per-piece partials, pointer-table merge
+    ck.mc_bg("GBChunked", chk_cfg(rows=2 if tier == "quick" else 3), "chunked_slices", workers=4)
+    ck.mc_bg("GBChunked", chk_cfg(rows=2 if tier == "quick" else 3, kernels=ALLK7, masks='{"none", "bool"}', distinct="FALSE", anyorder="TRUE",
+                                  chunks=3 if tier == "quick" else 2), "chunked_values_any_order", workers=4)
+    ck.mc_bg("GBChunked", chk_cfg(dev="d1"), "neg_chunked_neg_start_unclamped", expect="PointerAligned", workers=1)
+    ck.mc_bg("GBChunked", chk_cfg(dev="d2"), "neg_chunked_first_chunk_ge", expect="PointerAligned", workers=1)
+    ck.mc_bg("GBChunked", chk_cfg(dev="d3"), "neg_chunked_pointer_no_offset", expect="PointerAligned", workers=1)
+    ck.mc_bg("GBChunked", chk_cfg(dev="d4", kernels='{"min", "first"}', masks='{"none"}', distinct="FALSE", tail="INVARIANT MergedIsDef\n"),
+             "neg_chunked_merge_without_count", expect="MergedIsDef", workers=1)
+    ck.mc_bg("GBChunked", chk_cfg(dev="d5", masks='{"pos"}', tail="INVARIANT MergedIsDef\n"), "neg_chunked_positions_as_set", expect="MergedIsDef", workers=1)
     rng = Rng(f"C03-{ck.seed}")
     sched.install()
+    # (d) reductions over chunked keys, with the per-piece partials of hook H6
+    cc = chunked_cases(rng, tier)
+    tcz = ck.drive(chunked.run_chunked, cc, group=lambda c: c["emb"])
+    ck.notes["chunked_pipeline"] = {"calls": len(tcz), "with_internal_events": sum(t.get("internal", 0) for t in tcz),
+                                    "chunked_objects": sum(t.get("chunked", 0) for t in tcz),
+                                    "rep_pointers": sum(1 for t in tcz if t.get("rep") == "pointers"), "rep_global_chunked": sum(1 for t in tcz if t.get("rep") == "global" and t.get("chunked")),
+                                    "empty_leading_chunk_with_negative_start": sum(1 for t in tcz if t["klens"] and t["klens"][0] == 0 and t["mask"]["k"] == "slice" and t["mask"]["s"][0] not in (NONE,) and t["mask"]["s"][0] < -len(t["keys"]))}
+    rej = ck.validate("Trace_GBChunked", tcz, chk_trace_cfg(True), "chunked", nontrivial=lambda t: len(t["klens"]) > 1,
+                      key=lambda t: json.dumps([t["kernel"], t["keys"], t["klens"], t["mask"], t["rep"]]))
+    if rej:
+        # what the public call returned decides; a partial that differs while the result is right is reported, not judged
+        rej2 = ck.validate("Trace_GBChunked", rej, chk_trace_cfg(False), "chunked_api_only")
+        ck.evaluations -= len(rej)
+        ck.notes["chunked_pipeline"]["internal_divergence_with_correct_result"] = len(rej) - len(rej2)
+        ck.judge(rej2, None, {})
     # (a) strategy product
     pc = product_cases(rng, tier)
     warm = [c for c in pc if not c.get("T") and not c.get("R") and c["emb"] == "f64" and c.get("kcont") == "np" and not isinstance(c.get("vcont"), list)][:30]
